@@ -1,6 +1,6 @@
 SPECIFICATION Spec
 CONSTANTS
-  Variant = "fixed"
-  ClassName = "S2"
+  Variant = "orig"
+  ClassName = "S1"
   MaxOps = 2
 CONSTRAINT MJudge
